@@ -1,4 +1,4 @@
-"""Shared helpers for the whole-simulation checks (C01, C18): program generator and worker launcher."""
+"""Shared helpers for the whole-simulation checks (C01, C18): program generator, process histories and worker launcher."""
 from __future__ import annotations
 
 import concurrent.futures as cf
@@ -10,10 +10,20 @@ import sys
 
 from . import paths
 
-MODES = ["run_simulation", "step", "interactive_take", "interactive_until", "interactive_step"]
+# APIs that drive a run to its configured end (engine_worker.drive)
+ENGINE_MODES = ["run_simulation", "run", "run_backup", "step"]
+INTERACTIVE_MODES = ["interactive_take", "interactive_until", "interactive_step", "interactive_take_n", "interactive_run",
+                     "interactive_for", "interactive_mixed", "interactive_explicit", "interactive_pairs"]
+OVERRUNNING = {"interactive_pairs"}       # APIs that may legitimately take steps beyond the configured end
+MODES = ENGINE_MODES + INTERACTIVE_MODES
+# how components and configuration reach the context (engine_worker.make_context)
+ROUTES = ["args", "positional", "tree", "yaml", "yaml_override", "update", "split", "nested_add", "holder"]
+PRIOR_STYLES = ["empty", "rich", "same", "interleaved"]
+# dedicated program shapes (rare conjunctions get a mode of their own, not luck)
+SPEC_MODES = ["hash", "api", "crn", "services", "results", "tiny", "mixed"]
 
 
-def gen_spec(rng: random.Random, small=False) -> dict:
+def gen_spec(rng: random.Random, small=False, mode="mixed") -> dict:
     dt = rng.random() < 0.7
     spec = {
         "clock": "datetime" if dt else "simple",
@@ -23,34 +33,114 @@ def gen_spec(rng: random.Random, small=False) -> dict:
         "seed": rng.randint(0, 10_000),
         "additional_seed": rng.choice([None, None, 0, 3, 12345]),
         "crn_keys": rng.choice([0, 1, 2, 2, 3]),
+        "uid_kind": rng.choice(["float", "int"]),
         "map_size": rng.choice([997, 10_007, 100_003]),
         "births": [rng.randint(0, 3) for _ in range(rng.randint(1, 3))],
         "birth_phase": rng.choice(["time_step", "time_step", "time_step__prepare", "time_step__cleanup", "collect_metrics"]),
-        "mort": {"mods": rng.randint(0, 2)} if rng.random() < 0.7 else None,
+        "newborn": {"age0": rng.choice([0, 8, 40])} if rng.random() < 0.3 else None,
+        "pop_extra": ({"dist": rng.choice([None, "ppf", "scipy"]), "p2d": rng.random() < 0.4,
+                       "residual": rng.choice([None, "local"])} if rng.random() < 0.5 else None),
+        "perm": rng.random() < 0.4,
+        "mort": ({"mods": rng.randint(0, 3), "scale": rng.choice([None, 8, 16, 48]), "form": rng.choice(["rate", "prob"]),
+                  "kinds": rng.sample(["method", "method2", "function", "object", "partial", "lambda"], 3)} if rng.random() < 0.7 else None),
         "disease": ({"states": rng.randint(2, 4), "p": [rng.choice([0, 2, 5, 8, 16]) for _ in range(rng.randint(1, 3))],
-                     "self": True, "back": rng.random() < 0.5} if rng.random() < 0.7 else None),
+                     "self": True, "back": rng.random() < 0.5, "excess": rng.random() < 0.5,
+                     "trig": ({"at": rng.randint(0, 2), "every": rng.randint(1, 3)} if rng.random() < 0.4 else None),
+                     "transient": rng.random() < 0.3} if rng.random() < 0.7 else None),
         "stepmod": ({"every": rng.randint(1, 4), "mult": rng.randint(2, 4), "vary": rng.random() < 0.6}
                     if (dt and rng.random() < 0.4) else None),
         "obs": ({"strats": rng.randint(0, 3), "when": rng.choice(["collect_metrics", "time_step", "time_step__prepare", "time_step__cleanup"]),
                  "concat": rng.random() < 0.5, "defaults": rng.choice([[], [], ["sex"], ["sex", "color"]]),
-                 "values": rng.choice([0, 0, 2, 3, 5])} if rng.random() < 0.7 else None),
-        "extras": ({"pafs": [rng.choice([0.0, 0.25, 0.5, 0.75]) for _ in range(rng.randint(0, 3))]} if rng.random() < 0.5 else None),
-        "order": [rng.randint(0, 5) for _ in range(rng.randint(0, 3))],
+                 "values": rng.choice([0, 0, 2, 3, 5]), "rich": rng.random() < 0.4, "cfg_excl": rng.random() < 0.2,
+                 "report": rng.random() < 0.3} if rng.random() < 0.7 else None),
+        "extras": ({"pafs": [rng.choice([0.0, 0.25, 0.5, 0.75]) for _ in range(rng.randint(0, 3))], "cat": rng.random() < 0.4,
+                    "tables": rng.random() < 0.4, "ds": rng.choice([None, None, "name"]),
+                    "art": ({"draw": rng.randint(0, 2), "via": rng.choice(["load", "ds"])} if rng.random() < 0.3 else None),
+                    "late": rng.choice([None, None, 0, 1, 2]), "private": rng.random() < 0.3, "foreign": rng.random() < 0.3}
+                   if rng.random() < 0.5 else None),
+        "order": [rng.randint(0, 6) for _ in range(rng.randint(0, 3))],
     }
-    if spec["obs"]:
-        spec["obs"]["defaults"] = spec["obs"]["defaults"][: spec["obs"]["strats"]]
+    obs_full = {"strats": 3, "when": rng.choice(["collect_metrics", "time_step", "time_step__cleanup"]), "concat": True,
+                "defaults": rng.choice([["sex"], ["sex", "color"]]), "values": rng.choice([3, 5]), "rich": True,
+                "cfg_excl": rng.random() < 0.3, "report": rng.random() < 0.5}
+    extras_full = {"pafs": [0.25, 0.5, 0.125], "cat": True, "tables": True, "ds": "name",
+                   "art": {"draw": rng.randint(0, 2), "via": rng.choice(["load", "ds"])}, "late": rng.choice([0, 1, 2]),
+                   "private": True, "foreign": True}
+    if mode == "hash":
+        # as many set-typed intermediates as the framework has: wide updates, many required columns / values, three
+        # stratifications, tables whose column lists pass through sets
+        spec.update(pop=rng.choice([7, 15, 30]), n_steps=max(2, spec["n_steps"]), obs=obs_full, extras=dict(extras_full, art=None, late=None),
+                    mort=spec["mort"] or {"mods": 2, "scale": None, "form": "rate", "kinds": ["object", "method", "partial"]},
+                    pop_extra={"dist": "ppf", "p2d": True, "residual": None})
+    elif mode == "api":
+        # per-simulant clocks whose GLOBAL step changes during the run + births: where the stepping APIs can part ways
+        spec.update(clock="datetime", step=rng.choice([1, 0.5, 3, 10]), n_steps=rng.randint(5, 7 if small else 9), pop=rng.choice([1, 2, 7, 15]),
+                    stepmod={"every": rng.randint(2, 3), "mult": rng.randint(2, 4), "vary": True},
+                    births=[rng.randint(0, 2), rng.randint(1, 2)], extras=spec["extras"] or {"pafs": [0.5]})
+    elif mode == "crn":
+        # common random numbers with every key type, births in every step, a small map (collisions)
+        spec.update(crn_keys=rng.choice([2, 3, 3]), uid_kind="int", births=[rng.randint(1, 3), rng.randint(1, 3)], pop=rng.choice([7, 15, 30]),
+                    map_size=997, n_steps=max(3, spec["n_steps"]), newborn=rng.choice([None, {"age0": 8}]),
+                    disease=spec["disease"] or {"states": 3, "p": [5, 8], "self": True, "back": True})
+    elif mode == "services":
+        spec.update(extras=extras_full, perm=True, pop=max(2, spec["pop"]), n_steps=max(3, spec["n_steps"]),
+                    pop_extra={"dist": rng.choice(["ppf", "scipy"]), "p2d": rng.random() < 0.5, "residual": rng.choice([None, "local"])},
+                    mort=spec["mort"] or {"mods": 3, "scale": 8, "form": "prob", "kinds": ["lambda", "function", "object"]},
+                    disease={"states": rng.randint(3, 4), "p": [rng.choice([2, 5, 8]), rng.choice([2, 5, 8])], "self": True, "back": rng.random() < 0.5,
+                             "excess": True, "trig": {"at": rng.randint(0, 1), "every": rng.randint(1, 2)}, "transient": rng.random() < 0.5})
+    elif mode == "results":
+        spec.update(obs=dict(obs_full, report=True), pop=rng.choice([2, 7, 15, 30]), n_steps=max(2, spec["n_steps"]),
+                    mort=spec["mort"] or {"mods": 1, "scale": 48, "form": "rate", "kinds": ["method"]})
+    elif mode == "tiny":
+        spec.update(pop=rng.choice([0, 0, 1]), n_steps=rng.randint(1, 2), births=rng.choice([[0], [1], [0, 2]]))
+    o = spec["obs"]
+    if o:
+        o["defaults"] = o["defaults"][: o["strats"]]
+        if o.get("rich") and o["strats"] < 2:
+            o["strats"] = 2        # the rich observer set refers to sex and color
+    if spec["extras"] and spec["extras"].get("art") and spec["extras"]["art"].get("via") == "ds":
+        spec["extras"]["tables"] = True
     return spec
 
 
-def prior_spec(seed: int) -> dict:
+def gen_history(rng: random.Random, spec: dict, mode: str) -> dict:
+    return {"hashseed": rng.choice([1, 2, rng.randint(3, 10_000), "random"]), "noise": rng.randint(1, 10_000),
+            "prior": [rng.choice(PRIOR_STYLES) for _ in range(rng.choice([0, 0, 1, 1, 1, 2, 2, 3, 3, 5]))], "mode": mode,
+            "route": rng.choice(ROUTES), "verbosity": rng.choice([0, 0, 0, 1, 2]),
+            "sim_name": rng.choice([None, None, None, "named_by_user"]), "peek": rng.random() < 0.4}
+
+
+BASELINE = {"hashseed": 0, "noise": 0, "prior": [], "mode": "run_simulation", "route": "args", "verbosity": 0, "sim_name": None, "peek": False}
+
+
+def gen_histories(rng: random.Random, spec: dict, n=5) -> list:
+    """the baseline (fresh process, one-call API, plain arguments) and `n` other process histories: at least one more engine
+    API, the rest interactive APIs; routes, earlier contexts, logging and names at random"""
+    inter = [m for m in INTERACTIVE_MODES if not (m == "interactive_explicit" and spec.get("stepmod"))]
+    rng.shuffle(inter)
+    if spec.get("stepmod"):
+        # a changing global step is where the interactive APIs can part ways (F3, F21, F33): always the drive whose second step
+        # per call never returns to the caller, run_for, and one of run_until / run; the rest at random
+        must = ["interactive_pairs", "interactive_for", rng.choice(["interactive_until", "interactive_run"])]
+        inter = must + [m for m in inter if m not in must]
+    # (run(backup_path, …) pickles the context: with nobody in the table CPython 3.12's pickler trips over its own assertion)
+    modes = [rng.choice([m for m in ENGINE_MODES[1:] if not (m == "run_backup" and spec["pop"] == 0)])] + inter[: n - 1]
+    rng.shuffle(modes)
+    return [dict(BASELINE)] + [gen_history(rng, spec, m) for m in modes]
+
+
+def prior_spec(seed: int, long=False) -> dict:
     """an EARLIER simulation of the same process: a different rich program (observers with configured default
     stratifications, CRN keys, births …) that is set up, stepped once and finalized before the program under test"""
     rng = random.Random(f"prior:{seed}")
     spec = gen_spec(rng, small=True)
-    spec["n_steps"] = 1
+    spec["n_steps"] = 3 if long else 1
     spec["pop"] = rng.choice([3, 8])
     spec["stepmod"] = None
-    spec["obs"] = {"strats": rng.randint(1, 3), "when": "collect_metrics", "concat": rng.random() < 0.5, "defaults": ["sex"]}
+    spec["obs"] = {"strats": rng.randint(1, 3), "when": "collect_metrics", "concat": rng.random() < 0.5, "defaults": ["sex"],
+                   "values": rng.choice([0, 2]), "rich": rng.random() < 0.3}
+    if spec["obs"]["rich"]:
+        spec["obs"]["strats"] = max(2, spec["obs"]["strats"])
     if spec["obs"]["strats"] >= 2 and rng.random() < 0.5:
         spec["obs"]["defaults"] = ["sex", "color"]
     return spec
@@ -58,6 +148,9 @@ def prior_spec(seed: int) -> dict:
 
 class WorkerInfraError(Exception):
     """the worker process died without a verdict (OOM kill, interpreter failure) twice in a row"""
+
+
+MARK = "@@VCHECK@@"
 
 
 def _run_worker_once(job: dict, hashseed, timeout) -> dict:
@@ -70,7 +163,8 @@ def _run_worker_once(job: dict, hashseed, timeout) -> dict:
     except subprocess.TimeoutExpired:
         return {"error": "worker timeout", "digests": None, "__infra__": "timeout"}
     try:
-        return json.loads(r.stdout)
+        line = [l for l in r.stdout.splitlines() if l.startswith(MARK)][-1]
+        return json.loads(line[len(MARK):])
     except Exception:  # noqa: BLE001
         return {"error": "worker crashed: " + (r.stderr or r.stdout)[-800:], "digests": None, "__infra__": "crash"}
 
